@@ -92,14 +92,14 @@ IluOK(A, S, F) ==
         Ud == UDense(F, n)
     IN  /\ PatSubset(FactorPattern(F, n), S, n)
         /\ \A i \in Idx(n) : \A j \in S[i] :
-              REq(QSumRange(LAMBDA c : QMul(Ld[i][c], Ud[c][j]), 0, n - 1), R(At(A, i, j)))
+              QEq(QSumRange(LAMBDA c : QMul(Ld[i][c], Ud[c][j]), 0, n - 1), R(At(A, i, j)))
 \* when the complete factors fit into S the factorisation is exact: L U = A everywhere
 ExactWhenFits(A, S, F) ==
     LET n  == A.n
         Ld == LDense(F, n)
         Ud == UDense(F, n)
     IN  PatSubset(FullPattern(A), S, n) =>
-            \A i \in Idx(n) : \A j \in Idx(n) : REq(QSumRange(LAMBDA c : QMul(Ld[i][c], Ud[c][j]), 0, n - 1), R(At(A, i, j)))
+            \A i \in Idx(n) : \A j \in Idx(n) : QEq(QSumRange(LAMBDA c : QMul(Ld[i][c], Ud[c][j]), 0, n - 1), R(At(A, i, j)))
 
 \* ------------------------------------------------------------ detail/ilu_solve.hpp
 RowDotF(row, x) == FoldLeft(LAMBDA acc, c : QAdd(acc, QMul(row[c], x[c])), RZero, SetToSortSeq(DOMAIN row, <))
